@@ -1754,11 +1754,9 @@ fn main() {
         run_field(&mut ctx, &env);
     }
 
-    if wanted(&ctx, "ext_fft") {
-        sweep_ext_fft::<ext_towers::Q97, tf::D97>(&mut ctx, "Fp2(D97,u^2=5)", ext_towers::embed2::<ext_towers::Q97Cfg>);
-        sweep_ext_fft::<ext_towers::Q401, D401>(&mut ctx, "Fp2(D401,u^2=3)", ext_towers::embed2::<ext_towers::Q401Cfg>);
-        sweep_ext_fft::<ext_towers::C97, tf::D97>(&mut ctx, "Fp3(D97,u^3=5)", ext_towers::embed3::<ext_towers::C97Cfg>);
-    }
+    sweep_ext_fft::<ext_towers::Q97, tf::D97>(&mut ctx, "Fp2(D97,u^2=5)", ext_towers::embed2::<ext_towers::Q97Cfg>);
+    sweep_ext_fft::<ext_towers::Q401, D401>(&mut ctx, "Fp2(D401,u^2=3)", ext_towers::embed2::<ext_towers::Q401Cfg>);
+    sweep_ext_fft::<ext_towers::C97, tf::D97>(&mut ctx, "Fp3(D97,u^3=5)", ext_towers::embed3::<ext_towers::C97Cfg>);
 
     macro_rules! shipped_field {
         ($t:ty, $name:expr, $sq:expr, $st:expr, $lq:expr, $lt:expr, $dq:expr, $dt:expr) => {{
